@@ -717,6 +717,25 @@ func c02Run(c *fw.Ctx, id string, kind c02Kind, blank bool, lay *c02Layout, hist
 		c.Violate("edited-text-differs", "edited-text-differs:"+kind.name+":"+sepName+":"+diag, fmt.Sprintf("%s kind=%s sep=%s history=%v\n%s\n--- source\n%s", id, kind.name, sepName, applied, obs.DiffContext([]byte(got), wantB), canon), canon)
 		return
 	}
+	// the same edited tree printed by a restorer that also rebuilds objects and scopes (Extras):
+	// elements deleted from their list may still be reachable through the file scope, but they are
+	// not part of the file any more and neither are their comments
+	{
+		var buf bytes.Buffer
+		rs := decorator.NewRestorer()
+		rs.Extras = true
+		var xerr error
+		if sig, detail := fw.Try(func() { xerr = rs.Fprint(&buf, f) }); sig != "" {
+			c.Violate("print-failed", "print-failed:extras:"+kind.name, fmt.Sprintf("%s kind=%s history=%v: %s\n%s", id, kind.name, applied, sig, detail), canon)
+			return
+		}
+		if xerr == nil && buf.String() != string(wantB) {
+			diag := c02Diagnose(buf.String(), string(wantB))
+			c.Violate("edited-text-differs", "edited-text-differs:extras:"+kind.name+":"+diag, fmt.Sprintf("%s kind=%s sep=%s history=%v (printed with Restorer.Extras)\n%s", id, kind.name, sepName, applied, obs.DiffContext(buf.Bytes(), wantB)), canon)
+			return
+		}
+		c.Count("printed_with_extras", 1)
+	}
 	if changed > 0 && (strings.Contains(canon, "//") || strings.Contains(canon, "/*")) {
 		c.Nontrivial(kind.name, sepName, fmt.Sprint(applied), lay.shape)
 	}
